@@ -283,7 +283,7 @@ func retryT(f func(ctx context.Context) error) error {
 }
 
 // dumpState renders the table list (name, id) and the full content of every table, read through
-// the Tables and KV APIs of the instance. Revisions are included only when asked.
+// the Tables and KV APIs of the instance. The per-table applied index is included only when asked.
 func dumpState(conn *grpc.ClientConn, tablesToken string, withRev bool) (string, error) {
 	var sb strings.Builder
 	var lst *pb.ListTablesResponse
@@ -296,9 +296,25 @@ func dumpState(conn *grpc.ClientConn, tablesToken string, withRev bool) (string,
 	}
 	tabs := lst.Tables
 	sort.Slice(tabs, func(i, j int) bool { return tabs[i].Name < tabs[j].Name })
+	applied := map[string]uint64{}
+	if withRev {
+		// per-table applied raft index as reported by Cluster/Status: every proposal to a
+		// table (also one that leaves the content alone, like Reset) moves it
+		var st *pb.StatusResponse
+		err := retryT(func(ctx context.Context) (e error) {
+			st, e = pb.NewClusterClient(conn).Status(ctx, &pb.StatusRequest{})
+			return e
+		})
+		if err != nil {
+			return "", fmt.Errorf("status: %w", err)
+		}
+		for n, ts := range st.Tables {
+			applied[n] = ts.RaftAppliedIndex
+		}
+	}
 	for _, t := range tabs {
 		var kvs []*pb.KeyValue
-		var rev uint64
+		rev := applied[t.Name]
 		key := []byte{0}
 		unreadable := false
 		for page := 0; ; page++ {
@@ -315,7 +331,6 @@ func dumpState(conn *grpc.ClientConn, tablesToken string, withRev bool) (string,
 				return "", fmt.Errorf("range %s: %w", t.Name, err)
 			}
 			kvs = append(kvs, resp.Kvs...)
-			rev = resp.GetHeader().GetRevision()
 			if !resp.More || len(resp.Kvs) == 0 || page > 1000 {
 				break
 			}
@@ -325,7 +340,7 @@ func dumpState(conn *grpc.ClientConn, tablesToken string, withRev bool) (string,
 		case unreadable:
 			fmt.Fprintf(&sb, "table %q id=%s UNREADABLE(NotFound)\n", t.Name, t.Id)
 		case withRev:
-			fmt.Fprintf(&sb, "table %q id=%s rev=%d n=%d\n", t.Name, t.Id, rev, len(kvs))
+			fmt.Fprintf(&sb, "table %q id=%s applied=%d n=%d\n", t.Name, t.Id, rev, len(kvs))
 		default:
 			fmt.Fprintf(&sb, "table %q id=%s n=%d\n", t.Name, t.Id, len(kvs))
 		}
@@ -693,8 +708,8 @@ func (g *tokGroup) runProbes() {
 			r.Nontrivial("tok|" + key + "|" + fmt.Sprint(p.Cred.MD))
 			r.Count("near_miss_token_probes", 1)
 		}
-		if p.N%37 == 0 {
-			r.Sample(map[string]any{"group": g.id, "method": p.Method.short(), "kind": p.Method.Kind, "credential": p.Cred.Class, "metadata": p.Cred.MD,
+		if p.Cred.Near && p.N%11 == 3 {
+			keep("token-"+g.flavour, map[string]any{"group": g.id, "method": p.Method.short(), "kind": p.Method.Kind, "credential": p.Cred.Class, "metadata": p.Cred.MD,
 				"oracle_admit": p.Cred.Admit, "code": o.CodeS, "message": o.Msg})
 		}
 	}
@@ -761,6 +776,9 @@ func (g *tokGroup) runUnaffected() {
 			}
 			r.Count("unprotected_calls", 1)
 			r.Distinct("unprotected_methods", u.name)
+			if c.Near {
+				keep("unprotected", map[string]any{"group": g.id, "call": u.name, "metadata": c.MD, "code": o.CodeS})
+			}
 			if o.transient() {
 				r.Inconclusive(fmt.Sprintf("%s: %s with %s: %s %s", g.id, u.name, c.Class, o.CodeS, o.Msg))
 				continue
@@ -800,6 +818,7 @@ func runControl(r *ev.Run, id, flavour string, in *instance, conn *grpc.ClientCo
 			}
 			r.Count("control_probes", 1)
 			r.Distinct("control_methods_"+flavour, m.short())
+			keep("control", map[string]any{"group": id, "configured_tokens": "empty", "method": m.short(), "metadata": c.MD, "code": o.CodeS, "message": o.Msg})
 			if o.transient() {
 				r.Inconclusive(fmt.Sprintf("%s: %s with %s: %s %s", id, m.short(), c.Class, o.CodeS, o.Msg))
 				continue
